@@ -1,11 +1,19 @@
 """C20 - reopening storage returns exactly what was stored. Spec: Database.tla (WithReopen).
 
-`Reopen` is a stuttering step of every read of the specification (TLC: MergeAndReopenInvisible on
-Database_reopen_mc.cfg). Binding A on a file-backed leveldb under the run's work dir:
-  1. the shortest path to every distinct state of the exhaustive instance, with Reopen after
-     every action ("close/reopen after every block and after every merge");
-  2. -simulate behaviours of Database_reopen_sim.cfg (blocks, merges, removals, pool puts, Reopen)
-     with an additional Reopen after every action.
+`Reopen` is a stuttering step of every read of the specification (TLC: MergeAndReopenInvisible and, at the
+implementation level - what lives in memory only: the permanent store's state cache, the temps' state caches -
+MemoryInvisible on Database_reopen_mc.cfg). Binding A on a file-backed leveldb under the run's work dir:
+  1. the shortest path to every distinct state of the exhaustive instance, (a) with Reopen after
+     every action ("close/reopen after every block and after every merge"; nothing that lives in memory is
+     older than one action), (b) with every read performed where the path reads and ONE Reopen at the end
+     (what lives in memory is as old as the path);
+  2. the shortest path to every distinct state of Database_reopen_mem_mc_*.cfg: chains of 4 blocks, the spec
+     chooses per block whether the block write database has a state cache and WHERE Reopen happens; the view
+     includes the memory and the last action's effect on it (a merge that invalidates a cached key, a Reopen
+     that forgets cached keys / temp caches); a Reopen is appended to every path;
+  3. -simulate behaviours of Database_reopen_sim.cfg (blocks of several size classes, merges, removals, pool
+     puts, Reopen, NoRead), half of them with an additional Reopen after every action, half with the spec's
+     Reopens only and one at the end.
 At every Reopen the harness takes all reads (objects by reference; every ...Bytes read verbatim:
 encoder hint, meta, body; pool items), closes pool, Center, permanent store and storage, opens
 them again and repeats the reads. Verdict = before vs after (the statement); what differs from
@@ -21,17 +29,19 @@ ID = "C20"
 REOPEN = {"name": "Reopen"}
 
 
-def with_reopens(case, every=True):
+def with_reopens(case, every=True, at_end=False):
     """Reopen is enabled in every state and changes no read (the spec), so it may be inserted anywhere;
-    the reads expected after it are the ones of the step before."""
+    the reads expected after it are the ones of the step before. every: after every action (not after the
+    path's Read steps - the harness reads everything at a Reopen anyway); at_end: one after the last step."""
     acts, reads, ilh, ln, tf = [], [], [], [], []
+    n = len(case["acts"])
     for i, a in enumerate(case["acts"]):
         acts.append(a)
         reads.append(case["reads"][i])
         ilh.append(case["ilh"][i])
         ln.append(case["len"][i])
         tf.append(case["tf"][i])
-        if a["name"] != "Reopen" and every:
+        if (a["name"] not in ("Reopen", "Read") and every) or (at_end and i == n - 1 and a["name"] != "Reopen"):
             acts.append(REOPEN)
             reads.append(case["reads"][i])
             ilh.append(case["ilh"][i])
@@ -131,20 +141,48 @@ def run(ctx):
     phase("tlc_exhaustive")
     cases = []
     for i, s in enumerate(states):
-        c = c19.path_case(i, s, permcache=(0, 2, 4096)[i % 3], writecache=(0, 1, 64)[(i // 3) % 3])
-        cases.append(with_reopens(c))
+        pc, wc = (0, 2, 4096)[i % 3], (0, 1, 64)[(i // 3) % 3]
+        # (a) nothing in memory is older than one action
+        cases.append(with_reopens(c19.path_case(len(cases), s, permcache=pc, writecache=wc)))
+        # (b) the memory is as old as the path: every read where the path reads, one Reopen at the end
+        if len(s["path"]) > 2:
+            cases.append(with_reopens(c19.path_case(len(cases), s, permcache=(4096, 2)[i % 2], writecache=wc, reads_in_path=True),
+                                      every=False, at_end=True))
     rows = run_cases(ctx, cases, c19.KEYS_Q, 4, "exh")
     judge(ctx, cases, rows, "exhaustive")
     ctx.extra["exhaustive_states_replayed"] = len(cases)
     phase("replay_exhaustive")
 
-    # 2. random behaviours with pool puts
+    # 2. memory: chains of 4 blocks, per-block state cache choice, Reopen where the spec takes it, one at the end
+    cfg_m = "Database_reopen_mem_mc_quick.cfg" if quick else "Database_reopen_mem_mc_thorough.cfg"
+    r, states = ctx.tlc_dump_steps("Database", cfg_m, timeout=1500)
+    phase("tlc_mem")
+    states = [s for s in states if s["rd"]]
+    nall = len(states)
+    is_merge_drop = lambda s: bool(s["mem"]["eff"]["drop"]) and s["a"]["name"] in ("MergeOne", "MergeAll")
+    ndrop = sum(1 for s in states if is_merge_drop(s))
+    per = 3 if quick else 40
+    states, nstrata = c19.stratified(
+        states, lambda s: (s["a"]["name"], s["mem"]["eff"]["tc"], bool(s["mem"]["eff"]["drop"]), len(s["mem"]["pc"]), s["len"],
+                           any(a["name"] == "Reopen" for a in s["path"])), per, rng, must=is_merge_drop)
+    cases = [with_reopens(c19.path_case(i, s, permcache=(4096, 2, 4096)[i % 3], writecache=(64, 1)[(i // 3) % 2], model_wc=True,
+                                        reads_in_path=True), every=False, at_end=True) for i, s in enumerate(states)]
+    rows = run_cases(ctx, cases, c19.KEYS_Q, 4, "mem")
+    judge(ctx, cases, rows, "memory")
+    ctx.extra["memory_states"] = {"states": nall, "strata": nstrata, "replayed": len(cases),
+                                  "merge_invalidates_cached_key": ndrop}
+    if ndrop == 0:
+        raise core.MachineryError("no state in which a merge invalidates a cached key")
+    phase("replay_mem")
+
+    # 3. random behaviours with pool puts, size classes, per-block state cache choice, NoRead steps
     num, depth = (40, 30) if quick else (300, 40)
     _, behs = ctx.tlc_simulate("Database", "Database_reopen_sim.cfg", num=num, depth=2 * depth)
     cases = []
     for i, b in enumerate(behs):
-        c = c19.steps_to_case(i, b, permcache=(0, 2, 4096)[i % 3], writecache=(0, 1, 64)[(i // 3) % 3])
-        cases.append(with_reopens(c))
+        c = c19.steps_to_case(i, b, permcache=(0, 2, 4096)[i % 3], writecache=(1, 64)[(i // 3) % 2], model_wc=True)
+        # even: a Reopen after every action; odd: the spec's own Reopens and one at the end
+        cases.append(with_reopens(c) if i % 2 == 0 else with_reopens(c, every=False, at_end=True))
     rows = run_cases(ctx, cases, ["a", "b", "SUF", "POL"], 6, "sim")
     judge(ctx, cases, rows, "simulate")
     phase("simulate")
@@ -152,10 +190,15 @@ def run(ctx):
     if ctx.extra["counts"]["reopens"] == 0:
         raise core.MachineryError("no reopen was performed")
     ctx.exhaustive = True
-    ctx.rule = ("behaviours of Database.tla with Reopen after every action, replayed on a file-backed leveldb; exhaustive "
-                "part: shortest path to %s distinct state of Database_mc_quick.cfg%s; random part: -simulate of "
-                "Database_reopen_sim.cfg with pool puts; non-trivial = at least one block and one reopen; distinct by action "
-                "sequence" % ("every eighth (seeded)" if quick else "every", "" if quick else " + 1500 sampled 4-block states of Database_mc_thorough.cfg"))
+    ctx.rule = ("behaviours of Database.tla replayed on a file-backed leveldb, all reads compared before closing / after "
+                "reopening; exhaustive part: shortest path to %s distinct state of Database_mc_quick.cfg%s, once with Reopen "
+                "after every action and once with all the path's reads and one Reopen at the end; memory part: shortest path to "
+                "the distinct states (view includes memory and the last action's effect on it) of %s (stratified sample + "
+                "every merge that invalidates a cached key), Reopen where the spec takes it and at the end; random part: "
+                "-simulate of Database_reopen_sim.cfg with pool puts and size classes, half with Reopen after every action; "
+                "non-trivial = at least one block and one reopen; distinct by action sequence" % (
+                    "every eighth (seeded)" if quick else "every",
+                    "" if quick else " + 1500 sampled 4-block states of Database_mc_thorough.cfg", cfg_m))
     ctx.assumptions = [
         "quiescent points only: the storage is closed between calls, never inside one (crashes are C21)",
         "TempPool.LastVoteproofs is memory-only by design and not part of the compared pool contents",
